@@ -568,6 +568,26 @@ def _rebound_before(f, name, node):
     return False
 
 
+def _check_defaults(ctx, table):
+    """table: [(function short name, parameter, expected default source text)]"""
+    prog = ctx.prog
+    for fn, param, want in table:
+        f = prog.find_func(fn)
+        if param not in f.params:
+            ctx.violated(f, f.node, f"{fn}: parameter `{param}`", f"parameter `{param}` no longer exists; callers rely on its documented default {want}")
+            continue
+        d = f.param_default(param)
+        got = astx.u(d) if d is not None else "<required>"
+        ctx.check(got == want, f, d if d is not None else f.node, f"{fn}({param}={want}) documented default", got,
+                  f"default of `{param}` is {got}, documented {want}: every caller that omits the argument silently changes behaviour")
+
+
+def r8_defaults(ctx):
+    table = [(f"Election.{q}", "round_number", "-1") for q in ("get_profile", "get_step", "get_elected", "get_eliminated", "get_remaining", "get_ranking", "get_status_df")]
+    table += [("Alaska.get_profile", "round_number", "-1"), ("Election.__init__", "score_function", "None"), ("Election.__init__", "sort_high_low", "True")]
+    _check_defaults(ctx, table)
+
+
 RULES = [
     ("C09.P0", p0_closed_world, 1, "closed-world precondition: no reflective attribute access in the package"),
     ("C09.R1", r1_queries_pure, 9, "query methods and their call closure write nothing observable"),
@@ -575,6 +595,7 @@ RULES = [
     ("C09.R3", r3_replay_independent, 12, "replayed step logic reads no run-dependent state"),
     ("C09.R4", r4_index_guards, 8, "two-sided IndexError guard + modulo, or delegation to a guarded query"),
     ("C09.R5", r5_recorded_scores, 12, "recorded scores/order = class score function of the returned profile"),
+    ("C09.R8", r8_defaults, 10, "documented defaults: every query addresses the final round by default"),
     ("C09.R7", r7_no_shared_mutable_state, 15, "no mutated mutable defaults / class-level / module-level state; shared utilities do not mutate their arguments"),
     ("C09.R6", r6_ranges, 7, "cumulative queries use the documented slice / loop bounds"),
 ]
